@@ -1,4 +1,5 @@
 import ServiceModel.Proofs.Reachable
+import ServiceModel.Proofs.MonitorSound
 /-!
 # C01 — Escrowed service fees are always exactly backed
 
@@ -38,5 +39,11 @@ theorem escrow_backed_after_new_batch_handler (s : State) (c : CtxId) (h : Inv s
     (newBatch s c).s.bal (newBatch s c).s.cfg.escrow = activeFees (newBatch s c).s + earnedSum (newBatch s c).s := by
   have := (newBatch_inv s c h).m.escrow
   rw [activeFees_eq]; exact this
+
+/-- The executable monitor `escrowBacked`, which the check evaluates on every state decoded from the implementation's
+    trace, is a decidable reading of this equation: it reports nothing on any reachable state of the model, so an
+    alarm of it on an implementation state shows a state the model cannot reach. -/
+theorem escrow_monitor_implied {cfg : Config} {p : Params} {h0 t0 : Int} (hc : CfgOK cfg p) {s : State}
+    (hr : Reachable cfg p h0 t0 s) : Mon.escrowBacked s = [] := escrowBacked_sound (reachable_inv hc hr)
 
 end SM.C01
